@@ -120,14 +120,14 @@ impl CallingConvention {
                     il::scalar("x5", 64),
                     il::scalar("x6", 64),
                     il::scalar("x7", 64),
-                    il::scalar("v0", 64),
-                    il::scalar("v1", 64),
-                    il::scalar("v2", 64),
-                    il::scalar("v3", 64),
-                    il::scalar("v4", 64),
-                    il::scalar("v5", 64),
-                    il::scalar("v6", 64),
-                    il::scalar("v7", 64),
+                    il::scalar("v0", 128),
+                    il::scalar("v1", 128),
+                    il::scalar("v2", 128),
+                    il::scalar("v3", 128),
+                    il::scalar("v4", 128),
+                    il::scalar("v5", 128),
+                    il::scalar("v6", 128),
+                    il::scalar("v7", 128),
                 ];
                 let mut preserved_registers = HashSet::new();
                 preserved_registers.insert(il::scalar("x19", 64));
